@@ -88,6 +88,7 @@ func (f *Flow) prepareAdoption() {
 	w := f.W
 	f.C = nil
 	f.QStartStep = 0
+	f.issuedStep = 0
 	f.FaultSteps = 0
 	f.OnlineConn = -1
 	f.lastOnline = false
